@@ -7,6 +7,7 @@ import (
 	"os"
 	"path/filepath"
 	"strconv"
+	"strings"
 	"sync/atomic"
 	"testing"
 )
@@ -91,6 +92,11 @@ func newOut(t testing.TB, name string) *out {
 	return &out{f: f, w: bufio.NewWriterSize(f, 1<<20)}
 }
 func (o *out) line(format string, a ...interface{}) {
+	if strings.HasPrefix(format, "BEGIN ") {
+		// the scenario now running, on disk at once: if a library goroutine panics the whole process dies with the
+		// buffered files unwritten, and the runner reports this line as the failing scenario
+		_ = os.WriteFile(o.f.Name()+".current", []byte(fmt.Sprintf(format, a...)+"\n"), 0o644)
+	}
 	fmt.Fprintf(o.w, format, a...)
 	o.w.WriteByte('\n')
 	o.n++
